@@ -134,7 +134,7 @@ package oauth2
 //@   ensures [C02.client-bound] err == nil ==> old(code_client[sig]) == request.GetClient().GetID()
 //@   ensures [C02.redirect-bound] err == nil && formget(old(code_req[sig]).GetRequestForm(), "redirect_uri") != "" ==> formget(old(code_req[sig]).GetRequestForm(), "redirect_uri") == formget(request.GetRequestForm(), "redirect_uri")
 //@   ensures [C02.success-needs-live-code] err == nil ==> old(code_exists[sig]) && old(code_active[sig])
-//@   ensures [C02.grant-overrides-request] err == nil ==> request.GetID() == rid && request.GetRequestedScopes() == old(code_req[sig]).GetRequestedScopes() && request.GetRequestedAudience() == old(code_req[sig]).GetRequestedAudience() && request.GetSession() == old(code_req[sig]).GetSession()
+//@   ensures [C02.grant-overrides-request] err == nil ==> request.GetID() == rid && sameset(request.GetRequestedScopes(), old(code_req[sig]).GetRequestedScopes()) && sameset(request.GetRequestedAudience(), old(code_req[sig]).GetRequestedAudience()) && request.GetSession() == old(code_req[sig]).GetSession()
 //@   ensures [C02.failed-attempt-leaves-code] code_exists == old(code_exists) && code_active == old(code_active)
 
 //@ func getExpiresIn
@@ -232,7 +232,7 @@ package oauth2
 //@   ensures [C04.unknown-is-invalid-grant] canhandle && !old(ref_exists[sig]) && faults == old(faults) ==> ekind(err) == "invalid_grant"
 //@   ensures [C05.same-client] err == nil ==> old(ref_client[sig]) == request.GetClient().GetID()
 //@   ensures [C05.client-has-refresh-grant] err == nil ==> old(request.GetClient().GetGrantTypes()).Has("refresh_token")
-//@   ensures [C05.grant-copied] err == nil ==> request.GetID() == rid && request.GetRequestedScopes() == orig.GetRequestedScopes() && request.GetRequestedAudience() == orig.GetRequestedAudience()
+//@   ensures [C05.grant-copied] err == nil ==> request.GetID() == rid && sameset(request.GetRequestedScopes(), orig.GetRequestedScopes()) && sameset(request.GetRequestedAudience(), orig.GetRequestedAudience())
 //@   ensures [C05.subject-preserved] err == nil ==> request.GetSession() != orig.GetSession() && request.GetSession().GetSubject() == orig.GetSession().GetSubject() && request.GetSession().GetUsername() == orig.GetSession().GetUsername()
 //@   ensures [C05.scopes-still-allowed] err == nil ==> (forall j int :: 0 <= j && j < len(orig.GetGrantedScopes()) ==> call(c.Config.GetScopeStrategy(ctx), request.GetClient().GetScopes(), orig.GetGrantedScopes()[j]))
 //@   ensures [C05.audience-still-allowed] err == nil ==> call(c.Config.GetAudienceStrategy(ctx), request.GetClient().GetAudience(), orig.GetGrantedAudience()) == nil
